@@ -253,6 +253,41 @@ def type_selected_order(F, X):
     return None
 
 
+def caller_context(F, p, depth=0, seen=None):
+    """Byte-order context a private, non-generic helper inherits from its users: every reference to `p` (call or
+    fn-item value) anywhere in the crate sits in a function whose own context is one fixed order — declared by the
+    spec table below, or inherited the same way (bounded depth).  Returns 'BE' / 'LE', or None (no user, a public
+    function, users of different orders, or a user without a context)."""
+    seen = seen or set()
+    b = F.body(p)
+    if b is None or depth > 3 or p in seen or str(b.get("vis", "")).startswith("Public"):
+        return None
+    seen = seen | {p}
+    res = set()
+    n = 0
+    for q, qb in F.bodies.items():
+        if qb.get("derived") or q == p or "::tests::" in q:
+            continue
+        hit = False
+        for blk in qb["blocks"]:
+            if blk["cleanup"]:
+                continue
+            for o in list(cfg.term_operands(blk["term"])) + [o for s_ in blk["stmts"] if s_["k"] == "assign" for o in cfg.rv_operands(s_["rv"])]:
+                f = cfg.const_fn(o)
+                if f and (f["path"] == p or f.get("resolved") == p):
+                    hit = True
+        if not hit:
+            continue
+        n += 1
+        owner = q.split("::{closure")[0]
+        c = FIXED_CONTEXT.get(q) or FIXED_CONTEXT.get(owner) or body_context(qb) or caller_context(F, owner, depth + 1, seen)
+        res.add(c)
+    if n and len(res) == 1:
+        r = res.pop()
+        return r if r in ("BE", "LE") else None
+    return None
+
+
 # spec: fixed-order contexts (standard + extended header are big endian [PRS_Dlt_00091];
 # the storage header's timestamps are little endian by dlt-daemon convention)
 FIXED_CONTEXT = {
@@ -407,6 +442,9 @@ def check(ctx, bodies, rule="ORD-1", paired=()):
                             R.instance(rule, "%s: %s paired with endianness==%s ok" % (p, desc, "Big" if oc == "BE" else "Little"))
                         else:
                             R.violation(rule, key + "|" + str(bo), "%s (%s) is not selected by the matching `endianness == Big` branch (control dependence gives %s)" % (desc, oc, bo), file=fl, line=ln, function=p)
+                        continue
+                    if oc in ("BE", "LE") and caller_context(F, p) == oc:
+                        R.instance(rule, "%s: %s [%s inherited from every user of this private helper] ok" % (p, desc, oc))
                         continue
                     isf = b.get("impl_self")
                     if isf and oc in ("BE", "LE"):
